@@ -19,6 +19,11 @@ fn lr_stuck_check() {
     unsafe {
         if vshim::ST::round + 1 == vshim::ST::k && vshim::ST::spins >= 2 {
             flag(E_STUCK);
+            // A writer that never leaves this loop never reaches the harness's
+            // verdict (the spin bound cuts the path), so the verdict is taken here:
+            // the writer is the last thread and is in the last round, every guess
+            // is final.
+            assert!(!vshim::consistent(), "C18: [replayable] the writer still spins in a round in which every overlapping reader has finished");
         }
     }
 }
